@@ -573,6 +573,10 @@ def build_unit(unit: Unit, outdir, repo=None):
         # widen visibility so spec functions may mention the fields
         if item.kind == 'struct':
             t = re.sub(r'(?m)^([ \t]+)(?!pub\b)(\w+: )', r'\1pub \2', t)
+            mt = re.match(r'((?:pub(?:\([a-z]+\))? )?struct \w+(?:<[^>]*>)?)\(([^()]*)\);\s*$', t.strip())
+            if mt:   # tuple struct: widen each field
+                fields = [x.strip() for x in mt.group(2).split(',') if x.strip()]
+                t = mt.group(1) + '(' + ', '.join(x if x.startswith('pub') else 'pub ' + x for x in fields) + ');'
         t = re.sub(r'^(?!pub\b)', 'pub ', t)
         a, b = gen.add((item.attrs + '\n' if item.attrs else '') + t)
         prov['items'].append(dict(kind=item.kind, name=item.name, src=item.src,
